@@ -219,8 +219,8 @@ CHECKS = {
     text=('fkAx/fkAy/fcA of the flat, w-only and cylindrical kernels proved entry-wise against the piston-theory bilinear forms (symbolic indices and inputs); '
           'the integration-by-parts lemma that turns the code form into the statement form and yields skew-symmetry / zero diagonal with w restrained on the '
           'flow edges is proved exhaustively over the 900 table pairs; Panel.calc_kA (Mach-route formulas, flow dispatch, completion) and calc_cA are '
-          'executed symbolically with argument and structure obligations.'),
-    design_ref='DESIGN.md section 4 (C19)', note=KERNEL_NOTE + '; StiffPanelBay.calc_kA is proved equal to the full-domain panel\'s calc_kA with the bay\'s size and coefficients (1..2 skin panels, 0..1 2-D stiffeners, first request included; 1 fixed defect); 10 known findings (8: curvature part completed skew-symmetrically; 2: StiffPanelBay.calc_cA cannot run)',
+          'executed symbolically with argument and structure obligations: the flow-derivative part is completed skew-symmetrically, the curvature part (separate kernel call with beta = 0) symmetrically.'),
+    design_ref='DESIGN.md section 4 (C19)', note=KERNEL_NOTE + '; StiffPanelBay.calc_kA is proved equal to the full-domain panel\'s calc_kA with the bay\'s size and coefficients (1..2 skin panels, 0..1 2-D stiffeners, first request included; 1 fixed defect); 2 fixed defects (bay size/coefficients; curvature part completed skew-symmetrically, 8 obligations); 2 known findings (StiffPanelBay.calc_cA cannot run)',
     technique='contracts on kernels and Python methods; symbolic execution; exact normal form + z3'),
  'C02': dict(
     category='proof',
